@@ -158,6 +158,31 @@ def fixedHost (u : Url) : Option Str :=
       some (match u.port with | some p => h ++ ':' :: p | none => h)
   | _ => none
 
+/-! #### the same function at TEXT level, parametric in what `urlparse(url)` answers -/
+
+/-- `h[:h.rindex('%')]` -/
+def cutLastPercent (h : Str) : Str := ((h.reverse.dropWhile (· != '%')).drop 1).reverse
+
+/-- `_fixed_host_header(url)` transcribed statement by statement; `hostname` / `port` stand for
+    `urlparse(url).hostname` / `.port` (decimal text).  An empty hostname is falsy. -/
+def fixedHostText (url : Str) (hostname : Option Str) (port : Option Str) : Option Str :=
+  if !url.contains '%' then none
+  else match hostname with
+    | none => none
+    | some h =>
+      if !h.isEmpty && h.contains '%' then
+        let f := cutLastPercent h
+        let f := if f.contains ':' then '[' :: f ++ [']'] else f
+        some (match port with | some p => f ++ ':' :: p | none => f)
+      else none
+
+/-- ASSUMED of `urllib.parse.urlparse` on the grammar (checked against the real `urlparse` by the
+    correspondence harness on every case, not proved): `.hostname` is the host — for a bracketed
+    literal the bracket content, zone included — lower-cased; `.port` is the port. -/
+def urlparseHostname (u : Url) : Str :=
+  lowerStr (match u.host with | .plain h => h | .ipv6 a => a | .zoned a d z => a ++ d ++ z)
+def urlparsePort (u : Url) : Option Str := u.port
+
 abbrev Headers := PyDict Str Str
 
 def hostKey : Str := "host".toList
